@@ -572,6 +572,26 @@ let cquote_line line =
     Printf.printf "%s N %s %s\n" id (hex_of_zl j) (let r = xargs0 j in if r = [] then "-" else String.concat "," (List.map hex_of_zl r))
   | _ -> ()
 
+(* ---------------- crash states of one-way deliveries (C09) ---------------- *)
+let ccrash_line line =
+  match split_ws line with
+  | id :: fields ->
+    let dst = ref [] and ds = ref [] and sched = ref [] and push = ref false in
+    List.iter (fun f ->
+      let (k, v) = kv_of f in
+      if k = "DST" then dst := (if v = "-" then [] else List.map (fun e -> match String.split_on_char ':' e with
+          | [p; c] -> (zl_of_hex p, zl_of_hex c) | _ -> failwith "bad DST") (split_on ';' v))
+      else if k = "DS" then ds := (if v = "-" then [] else List.map (fun e -> match String.split_on_char ':' e with
+          | [p; ch; m] -> (zl_of_hex p, ((if ch = "." then [] else List.map zl_of_hex (String.split_on_char '+' ch)), z_of_dec m))
+          | _ -> failwith "bad DS") (split_on ';' v))
+      else if k = "SCHED" then sched := (if v = "-" then [] else List.map (fun x -> nat_of_int (int_of_string x)) (split_on ',' v))
+      else if k = "PUSH" then push := (v = "1")) fields;
+    let (t, st) = crash_exec !dst !ds !sched !push in
+    Printf.printf "%s T=%s ST=%s\n" id
+      (if t = [] then "-" else String.concat ";" (List.map (fun (p, c) -> hex_of_zl p ^ "=" ^ (match c with Some b -> hex_of_zl b | None -> "~")) t))
+      (if st = [] then "-" else String.concat "," (List.map (function Some b -> hex_of_zl b | None -> "~") st))
+  | _ -> ()
+
 let () =
   match Array.to_list Sys.argv with
   | _ :: "c17" :: file :: _ -> iter_lines file (c17_line false)
@@ -586,6 +606,7 @@ let () =
   | _ :: "cbisync" :: file :: _ -> iter_lines file cbisync_line
   | _ :: "coneway" :: file :: _ -> iter_lines file coneway_line
   | _ :: "cquote" :: file :: _ -> iter_lines file cquote_line
+  | _ :: "ccrash" :: file :: _ -> iter_lines file ccrash_line
   | _ :: "crefuse" :: file :: _ -> iter_lines file (fun line -> match split_ws line with
       | id :: p :: _ -> Printf.printf "%s %s\n" id (if refused (zl_of_hex p) then "REFUSED" else "ACCEPTED")
       | _ -> ())
